@@ -126,12 +126,15 @@ def main():
     u = DCm.Dist()
     for k in ('_TemplateBuildDistinguisherMixin._compute', '_TemplateBuildDistinguisherMixin._check', '_BaseTemplateAttackDistinguisherMixin._initialize', '_BaseTemplateAttackDistinguisherMixin._update', '_BaseTemplateAttackDistinguisherMixin._compute',
               'TemplateAttackDistinguisherMixin.get_template_index', 'TemplateAttackDistinguisherMixin._get_dimension', 'TemplateDPADistinguisherMixin._get_dimension'): rep.function(TM + '::' + k, u.sha(TM + '::' + k))
-    units = [('build', 2, 'float64'), ('build', 2, 'float32'), ('build', 3, 'float64'), ('match',), ('bm',), ('tm', 'static', 'float64'), ('tm', 'static', 'float32')]
+    units = [('build', 2, 'float64'), ('build', 2, 'float32'), ('build', 3, 'float64'), ('match',), ('bm',), ('tm', 'static', 'float64'), ('tm', 'static', 'float32'), ('tdpa', [3, 1, 2, 0]), ('tdpa', [0, 1, 2, 3])]      # tdpa: matching picks the template of the class whose VALUE is the hypothesis (contract shared with C12)
     def work(sub, kind, *args):
         if kind == 'build': build_compute(u, sub, args[0], args[1], timeout)
         elif kind == 'match': matching(u, sub, timeout)
         elif kind == 'bm': build_method(u, sub)
         elif kind == 'tm': C1.template_matching_update(u, sub, args[0], args[1], timeout)
+        elif kind == 'tdpa':
+            from props import c12 as C12_
+            C12_.template_dpa_index(u, sub, args[0], timeout)
     P.run_units(rep, work, units)
     rc, o, so, se = R.run_native('props.c14_native', ['bounded', str(seed), a.tier], timeout=2400)
     if o is None: rep.errors.append('native stand-in failed: %s %s' % (so[-400:], se[-900:]))
